@@ -9,6 +9,13 @@ type W<'a> = &'a mut dyn Write;
 pub fn generate(prop: &str, thorough: bool, seed: u64, w: W) -> std::io::Result<()> {
     let mut r = Rng::new(seed ^ prop_salt(prop));
     match prop {
+        "C01" => c01(&mut r, thorough, w),
+        "C03" => c03(&mut r, thorough, w),
+        "C04" => c04(&mut r, thorough, w),
+        "C05" => c05(&mut r, thorough, w),
+        "C13" => c13(&mut r, thorough, w),
+        "C15" => c15(&mut r, thorough, w),
+        "C16" => c16(&mut r, thorough, w),
         "C14" => c14(&mut r, thorough, w),
         "C17" => c17(&mut r, thorough, w),
         "C18" => c18(&mut r, thorough, w),
@@ -239,6 +246,401 @@ fn c19(r: &mut Rng, thorough: bool, w: W) -> std::io::Result<()> {
             _ => r.below(s.len() as u64 + 3) as usize,
         };
         writeln!(w, "ZTS {} {}", n, hex(&s))?;
+    }
+    Ok(())
+}
+
+/// bytes of a message, computed by the crate (generation only needs *some* realistic bytes to
+/// mutate; nothing is concluded from them)
+fn enc(m: &Message) -> Vec<u8> {
+    std::panic::catch_unwind(std::panic::AssertUnwindSafe(|| m.as_bytes())).unwrap_or_default()
+}
+
+fn suffix(r: &mut Rng) -> Vec<u8> {
+    match r.below(6) {
+        0 | 1 => vec![],
+        2 => {
+            let n = r.range(1, 20) as usize;
+            r.bytes(n)
+        }
+        3 => enc(&message(r, &MsgOpts::default())),
+        4 => {
+            let mut v = vec![0x44, 0x4c, 0x54, 0x01];
+            let n = r.below(20) as usize;
+            v.extend(r.bytes(n));
+            v
+        }
+        _ => vec![0x44, 0x4c, 0x54],
+    }
+}
+
+fn c01(r: &mut Rng, thorough: bool, w: W) -> std::io::Result<()> {
+    let n = if thorough { 300_000 } else { 4_000 };
+    let nbig = if thorough { 1_500 } else { 40 };
+    for i in 0..n {
+        let big = i < nbig;
+        let m = message(r, &MsgOpts { storage: None, big, max_args: if big { 12 } else { 6 } });
+        let sfx = suffix(r);
+        writeln!(w, "RT {} {}", p_message(&m), hex(&sfx))?;
+    }
+    Ok(())
+}
+
+/// the malformed / dialect decode stream shared by C02, C03, C04, C16
+pub fn decode_stream(r: &mut Rng, big: bool) -> (bool, Vec<u8>) {
+    let storage = r.flip();
+    let m = message(r, &MsgOpts { storage: Some(storage), big, max_args: 5 });
+    let bytes = enc(&m);
+    let v = match r.below(10) {
+        0 => bytes,
+        1 => {
+            let mut b = bytes;
+            b.extend(suffix(r));
+            b
+        }
+        2 => noise(r),
+        3 => {
+            // junk in front (storage mode resync)
+            let k = r.range(1, 12) as usize;
+            let mut b = r.bytes(k);
+            b.extend(bytes);
+            b
+        }
+        4 => {
+            // splice two messages
+            let m2 = message(r, &MsgOpts { storage: Some(storage), big: false, max_args: 3 });
+            let b2 = enc(&m2);
+            let cut = r.below(bytes.len() as u64 + 1) as usize;
+            let mut b = bytes[..cut].to_vec();
+            let cut2 = r.below(b2.len() as u64 + 1) as usize;
+            b.extend_from_slice(&b2[cut2..]);
+            b
+        }
+        _ => mutate(r, &bytes, storage),
+    };
+    // storage mode is sometimes flipped relative to the bytes
+    let w = if r.chance(1, 10) { !storage } else { storage };
+    (w, v)
+}
+
+fn c03(r: &mut Rng, thorough: bool, w: W) -> std::io::Result<()> {
+    let n = if thorough { 400_000 } else { 8_000 };
+    // guard-targeted: declared length below the header length, for all 32 flag sets
+    for flags in 0..32u8 {
+        for len in [0u16, 1, 3, 4, 5, 13, 14, 15, 17, 18, 25, 26, 27] {
+            let mut v = vec![flags, 0, (len >> 8) as u8, len as u8];
+            v.extend(vec![0u8; 40]);
+            writeln!(w, "NOPANIC 0 - {}", hex(&v))?;
+            let mut s = vec![0x44, 0x4c, 0x54, 0x01, 0, 0, 0, 0, 0, 0, 0, 0, b'E', b'C', b'U', 0];
+            s.extend(&v);
+            writeln!(w, "NOPANIC 1 - {}", hex(&s))?;
+            writeln!(w, "CONSUME {}", hex(&s))?;
+        }
+    }
+    // 65535-byte names / strings inside a verbose payload, > 64 KiB inputs
+    for be in [false, true] {
+        for ti in [0x0000_0a00u32, 0x0000_0810, 0x0000_0c00, 0x0000_0823] {
+            let htyp: u8 = 0x01 | if be { 0x02 } else { 0 };
+            let mut v = vec![htyp, 0, 0xff, 0xff, 0x01, 1, b'A', 0, 0, 0, b'C', 0, 0, 0];
+            let tib = if be { ti.to_be_bytes() } else { ti.to_le_bytes() };
+            v.extend_from_slice(&tib);
+            v.extend_from_slice(&[0xff, 0xff, 0xff, 0xff]);
+            v.extend(vec![b'n'; 70_000]);
+            writeln!(w, "NOPANIC 0 - {}", hex(&v))?;
+            v.truncate(65535);
+            writeln!(w, "NOPANIC 0 - {}", hex(&v))?;
+        }
+    }
+    for i in 0..n {
+        let (ws, v) = decode_stream(r, i % 500 == 0);
+        let ids = vec!["A".to_string(), "ABC".to_string(), "x".to_string()];
+        let f = if r.chance(1, 3) { Some(filter(r, &ids)) } else { None };
+        writeln!(w, "NOPANIC {} {} {}", p_bool(ws), p_opt(&f, p_filter), hex(&v))?;
+        match r.below(8) {
+            0 => writeln!(w, "CONSUME {}", hex(&v))?,
+            1 => writeln!(w, "SKIPSH {}", hex(&v))?,
+            2 => writeln!(w, "FWD {}", hex(&v))?,
+            3 => {
+                let k = match r.below(4) {
+                    0 => v.len(),
+                    1 => v.len() + 1,
+                    2 => r.below(70000) as usize,
+                    _ => r.below(v.len() as u64 + 2) as usize,
+                };
+                writeln!(w, "ZTS {} {}", k, hex(&v))?
+            }
+            _ => {}
+        }
+    }
+    Ok(())
+}
+
+fn c05(r: &mut Rng, thorough: bool, w: W) -> std::io::Result<()> {
+    let n = if thorough { 12_000 } else { 350 };
+    for _ in 0..n {
+        let m = message(r, &MsgOpts { storage: None, big: false, max_args: 4 });
+        writeln!(w, "CUTALL {}", p_message(&m))?;
+    }
+    Ok(())
+}
+
+fn message_config(r: &mut Rng) -> (MessageConfig, Option<StorageHeader>) {
+    let big = r.chance(1, 50);
+    let m = message(r, &MsgOpts { storage: None, big, max_args: 6 });
+    let ext = m.extended_header.as_ref().map(|e| ExtendedHeaderConfig {
+        message_type: e.message_type.clone(),
+        app_id: e.application_id.clone(),
+        context_id: e.context_id.clone(),
+    });
+    (
+        MessageConfig {
+            version: m.header.version,
+            counter: m.header.message_counter,
+            endianness: m.header.endianness,
+            ecu_id: m.header.ecu_id.clone(),
+            session_id: m.header.session_id,
+            timestamp: m.header.timestamp,
+            payload: m.payload.clone(),
+            extended_header_info: ext,
+        },
+        m.storage_header.clone(),
+    )
+}
+
+fn c15(r: &mut Rng, thorough: bool, w: W) -> std::io::Result<()> {
+    let n = if thorough { 300_000 } else { 6_000 };
+    for i in 0..n {
+        match i % 4 {
+            0 | 1 => {
+                let a = argument(r, i % 200 == 0);
+                writeln!(w, "ARGLEN {}", p_argument(&a))?;
+            }
+            2 => {
+                let (c, sh) = message_config(r);
+                writeln!(
+                    w,
+                    "NEW {} {}",
+                    crate::ops::p_message_config(&c),
+                    p_opt(&sh, p_storage_header)
+                )?;
+            }
+            _ => {
+                if r.chance(1, 3) {
+                    // validity check: bool / float kinds carrying another value variant
+                    let mut a = argument(r, false);
+                    let k = r
+                        .pick(&[
+                            TypeInfoKind::Bool,
+                            TypeInfoKind::Float(FloatWidth::Width32),
+                            TypeInfoKind::Float(FloatWidth::Width64),
+                        ])
+                        .clone();
+                    a.type_info.kind = k;
+                    a.type_info.has_variable_info = false;
+                    a.name = None;
+                    a.unit = None;
+                    a.fixed_point = None;
+                    writeln!(w, "VALID {}", p_argument(&a))?;
+                } else {
+                    let st = r.chance(1, 4);
+                    let m = message(r, &MsgOpts { storage: Some(st), big: false, max_args: 4 });
+                    writeln!(
+                        w,
+                        "ADDSH {} {} {}",
+                        p_message(&m),
+                        r.int_bits(32) as u32,
+                        r.int_bits(32) as u32
+                    )?;
+                }
+            }
+        }
+    }
+    Ok(())
+}
+
+fn c16(r: &mut Rng, thorough: bool, w: W) -> std::io::Result<()> {
+    let n = if thorough { 600_000 } else { 12_000 };
+    for i in 0..n {
+        let (ws, v) = decode_stream(r, i % 500 == 0);
+        writeln!(w, "STABLE {} {}", p_bool(ws), hex(&v))?;
+    }
+    Ok(())
+}
+
+fn c04(r: &mut Rng, thorough: bool, w: W) -> std::io::Result<()> {
+    let n = if thorough { 500_000 } else { 10_000 };
+    let ids = vec!["A".to_string(), "ABC".to_string(), "x".to_string(), "".to_string()];
+    for i in 0..n {
+        // weighted towards verbose messages whose arguments are shorter / longer than declared
+        let (ws, v) = if r.chance(1, 3) {
+            let storage = r.flip();
+            let mut m = message(r, &MsgOpts { storage: Some(storage), big: false, max_args: 5 });
+            let delta = *r.pick(&[-9i32, -4, -2, -1, 1, 2, 4, 7, 20]);
+            let pl = m.header.payload_length as i32 + delta;
+            if pl >= 0 && pl <= 60000 {
+                m.header.payload_length = pl as u16;
+            }
+            let mut b = enc(&m);
+            if delta > 0 {
+                // make the declared bytes available
+                let extra = delta as usize + r.below(6) as usize;
+                b.extend(r.bytes(extra));
+            } else {
+                b.extend(suffix(r));
+            }
+            if storage && r.chance(1, 3) {
+                let k = r.range(1, 9) as usize;
+                let mut j = r.bytes(k);
+                j.extend(b);
+                b = j;
+            }
+            (storage, b)
+        } else {
+            decode_stream(r, i % 1000 == 0)
+        };
+        let f = if r.chance(1, 2) { Some(filter(r, &ids)) } else { None };
+        writeln!(w, "CONS {} {} {}", p_bool(ws), p_opt(&f, p_filter), hex(&v))?;
+        if ws && r.chance(1, 3) {
+            writeln!(w, "CONSUME {}", hex(&v))?;
+        }
+    }
+    writeln!(w, "CONSUME x")?;
+    Ok(())
+}
+
+fn nv_type(r: &mut Rng) -> TypeInfo {
+    TypeInfo {
+        kind: if r.chance(1, 12) {
+            kind(r) // includes the fixed-point kinds (not part of the vocabulary: always an error)
+        } else {
+            match r.below(6) {
+                0 => TypeInfoKind::Bool,
+                1 => TypeInfoKind::Signed(type_length(r)),
+                2 => TypeInfoKind::Unsigned(type_length(r)),
+                3 => TypeInfoKind::Float(float_width(r)),
+                4 => TypeInfoKind::StringType,
+                _ => TypeInfoKind::Raw,
+            }
+        },
+        coding: if r.flip() { StringCoding::ASCII } else { StringCoding::UTF8 },
+        has_variable_info: false,
+        has_trace_info: false,
+    }
+}
+
+fn nv_field(r: &mut Rng, e: Endianness, t: &TypeInfo) -> Vec<u8> {
+    let put16 = |n: u16| if e == Endianness::Big { n.to_be_bytes() } else { n.to_le_bytes() };
+    match t.kind {
+        TypeInfoKind::Bool => vec![r.below(3) as u8],
+        TypeInfoKind::Signed(l) | TypeInfoKind::Unsigned(l) => r.bytes(l as usize / 8),
+        TypeInfoKind::Float(w) | TypeInfoKind::SignedFixedPoint(w) | TypeInfoKind::UnsignedFixedPoint(w) => {
+            r.bytes(w as usize / 8)
+        }
+        TypeInfoKind::StringType => {
+            let s = if r.chance(1, 8) { r.bytes(3) } else { utf8_no_nul(r, 10).into_bytes() };
+            let mut v = put16(s.len() as u16).to_vec();
+            v.extend(s);
+            v
+        }
+        TypeInfoKind::Raw => {
+            let n = r.below(10) as usize;
+            let mut v = put16(n as u16).to_vec();
+            v.extend(r.bytes(n));
+            v
+        }
+    }
+}
+
+fn c13(r: &mut Rng, thorough: bool, w: W) -> std::io::Result<()> {
+    let all_kinds: Vec<TypeInfoKind> = {
+        let mut v = vec![TypeInfoKind::Bool, TypeInfoKind::StringType, TypeInfoKind::Raw];
+        for l in [
+            TypeLength::BitLength8,
+            TypeLength::BitLength16,
+            TypeLength::BitLength32,
+            TypeLength::BitLength64,
+            TypeLength::BitLength128,
+        ] {
+            v.push(TypeInfoKind::Signed(l));
+            v.push(TypeInfoKind::Unsigned(l));
+        }
+        for f in [FloatWidth::Width32, FloatWidth::Width64] {
+            v.push(TypeInfoKind::Float(f));
+            v.push(TypeInfoKind::SignedFixedPoint(f));
+            v.push(TypeInfoKind::UnsignedFixedPoint(f));
+        }
+        v
+    };
+    let mk = |k: &TypeInfoKind| TypeInfo {
+        kind: k.clone(),
+        coding: StringCoding::ASCII,
+        has_variable_info: false,
+        has_trace_info: false,
+    };
+    // exhaustive: every kind (and pair of kinds) x both orders x every truncation point
+    for e in [Endianness::Little, Endianness::Big] {
+        for k1 in &all_kinds {
+            let t1 = mk(k1);
+            let f1 = nv_field(r, e, &t1);
+            for cut in 0..=f1.len() + 1 {
+                let mut d = f1.clone();
+                d.push(0xAB);
+                d.truncate(cut);
+                writeln!(w, "NVA {} 1 {} {}", p_endian(e), p_type_info(&t1), hex(&d))?;
+            }
+            for k2 in &all_kinds {
+                let t2 = mk(k2);
+                let mut d = f1.clone();
+                d.extend(nv_field(r, e, &t2));
+                d.push(0xCD);
+                let step = if thorough { 1 } else { 3 };
+                let mut cut = 0;
+                while cut <= d.len() {
+                    writeln!(
+                        w,
+                        "NVA {} 2 {} {} {}",
+                        p_endian(e),
+                        p_type_info(&t1),
+                        p_type_info(&t2),
+                        hex(&d[..cut])
+                    )?;
+                    cut += step;
+                }
+            }
+        }
+    }
+    let n = if thorough { 600_000 } else { 12_000 };
+    for _ in 0..n {
+        let e = if r.flip() { Endianness::Big } else { Endianness::Little };
+        let k = r.below(9) as usize;
+        let tis: Vec<TypeInfo> = (0..k).map(|_| nv_type(r)).collect();
+        let mut d = vec![];
+        for t in &tis {
+            d.extend(nv_field(r, e, t));
+        }
+        match r.below(5) {
+            0 => {
+                let c = r.below(d.len() as u64 + 1) as usize;
+                d.truncate(c);
+            }
+            1 => {
+                let k = r.range(1, 9) as usize;
+                d.extend(r.bytes(k))
+            }
+            2 => {
+                if !d.is_empty() {
+                    let i = r.below(d.len() as u64) as usize;
+                    d[i] = r.next() as u8;
+                }
+            }
+            _ => {}
+        }
+        let mut line = format!("NVA {} {}", p_endian(e), tis.len());
+        for t in &tis {
+            line.push(' ');
+            line.push_str(&p_type_info(t));
+        }
+        writeln!(w, "{} {}", line, hex(&d))?;
     }
     Ok(())
 }
